@@ -20,6 +20,7 @@ mod parsetotal;
 mod extract;
 mod laws;
 mod total;
+mod exprtrace;
 
 use std::process::exit;
 
@@ -61,6 +62,7 @@ fn main() {
                 "parse" => parsetotal::trace(seed, n),
                 "laws" => laws::trace(seed, n),
                 "total" => total::trace(seed, n),
+                "expr" => exprtrace::trace(seed, n),
                 "process" => total::trace_process(seed, n),
                 m => { eprintln!("unknown module {}", m); exit(2) }
             };
